@@ -6,6 +6,7 @@ package server
 
 //@ guarded_by server.mutex: locations, cache, compress, compressMinLength, compressContentTypeFilter
 //@ immutable server: mutex
+//@ immutable cells(string)
 //@ typeinv server(s) by NewServer: s.mutex != nil
 
 // the cache-status label stored in the request context
@@ -32,26 +33,26 @@ package server
 //@ func (s *server) Update(opt ServerOption)
 //@   requires [recv] s != nil
 //@   requires [unlocked] !anyheld(s.mutex)
-//@   modifies s.locations, s.cache, s.compress, s.compressMinLength, s.compressContentTypeFilter, cells(string)
+//@   modifies s.locations, s.cache, s.compress, s.compressMinLength, s.compressContentTypeFilter
 //@   nopanic
 //@   atunlock [fresh-equiv] configured(s, opt)
 
 //@ func (s *server) GetLocations() (names []string)
 //@   requires [recv] s != nil
 //@   requires [unlocked] !anyheld(s.mutex)
-//@   modifies s.locations, s.cache, s.compress, s.compressMinLength, s.compressContentTypeFilter, cells(string)
+//@   modifies s.locations, s.cache, s.compress, s.compressMinLength, s.compressContentTypeFilter
 //@   nopanic
 
 //@ func (s *server) GetCompress() (name string, minLength int, filter *regexp.Regexp)
 //@   requires [recv] s != nil
 //@   requires [unlocked] !anyheld(s.mutex)
-//@   modifies s.locations, s.cache, s.compress, s.compressMinLength, s.compressContentTypeFilter, cells(string)
+//@   modifies s.locations, s.cache, s.compress, s.compressMinLength, s.compressContentTypeFilter
 //@   nopanic
 
 //@ func (s *server) GetCache() (name string)
 //@   requires [recv] s != nil
 //@   requires [unlocked] !anyheld(s.mutex)
-//@   modifies s.locations, s.cache, s.compress, s.compressMinLength, s.compressContentTypeFilter, cells(string)
+//@   modifies s.locations, s.cache, s.compress, s.compressMinLength, s.compressContentTypeFilter
 //@   nopanic
 
 //@ func getKey(req *http.Request) (key []byte)
@@ -96,3 +97,49 @@ package server
 //@   ensures [forbid] (ciContains(ccOf(header), "no-cache") || ciContains(ccOf(header), "no-store") || ciContains(ccOf(header), "private")) ==> maxAge == 0
 //@   ensures [value]  vlen($hdr[header]["Set-Cookie"]) == 0 && ccOf(header) != "" && !(ciContains(ccOf(header), "no-cache") || ciContains(ccOf(header), "no-store") || ciContains(ccOf(header), "private"))
 //@                      ==> maxAge == wrap64(lifetimeOf(ccOf(header)) - ageOf(header))
+
+// ---- registry of servers (live reconfiguration, C16) ---------------------------------------
+
+//@ typeinv servers(ss) by NewServers: ss.m != nil
+//@ immutable servers: m
+//@ pred configuredAddr(opts []ServerOption, addr string) := exists i int :: 0 <= i && i < len(opts) && opts[i].Addr == addr
+
+//@ func (ss *servers) Reset$1(key string) (del bool)
+//@   requires [opts] opts != nil
+//@   effectfree
+//@   ensures [def] del <==> !configuredAddr(deref(opts), key)
+//@   loop 0: invariant [idx]  -1 <= $idx && $idx < len(opts)
+//@   loop 0: invariant [none] forall k int :: 0 <= k && k <= $idx ==> opts[k].Addr != key
+
+// closing a removed server happens asynchronously and only touches that server
+//@ func (ss *servers) Reset$2()
+//@   trusted
+//@   nopanic
+
+//@ func (ss *servers) Reset(opts []ServerOption)
+//@   requires [recv] ss != nil
+//@   requires [nolocks] nolocks()
+//@   modifies ss.m.dom, ss.m.vals, server::locations, server::cache, server::compress, server::compressMinLength, server::compressContentTypeFilter
+//@   ensures [exact]     forall k any :: typeis(k, "string") ==> (ss.m.dom[k] <==> configuredAddr(opts, unbox(k, "string")))
+//@   ensures [survivors] forall k any :: old(ss.m.dom[k]) && ss.m.dom[k] ==> ss.m.vals[k] == old(ss.m.vals[k])
+//@   ensures [others]    forall k any :: !typeis(k, "string") ==> ss.m.dom[k] == old(ss.m.dom[k])
+//@   loop 0: modifies nothing
+//@   loop 0: invariant [idx]   -1 <= $idx && $idx < len(result) && nolocks()
+//@   loop 1: modifies ss.m.dom, ss.m.vals, server::locations, server::cache, server::compress, server::compressMinLength, server::compressContentTypeFilter
+//@   loop 1: invariant [idx]   -1 <= $idx && $idx < len(opts) && ss.m != nil && nolocks()
+//@   loop 1: invariant [keep]  forall k any :: typeis(k, "string") && !configuredAddr(opts, unbox(k, "string")) ==> !ss.m.dom[k]
+//@   loop 1: invariant [added] forall j int :: 0 <= j && j <= $idx ==> ss.m.dom[box(opts[j].Addr)]
+//@   loop 1: invariant [kept]  forall k any :: old(ss.m.dom[k]) && typeis(k, "string") && configuredAddr(opts, unbox(k, "string")) ==> ss.m.dom[k]
+//@   loop 1: invariant [survivors] forall k any :: old(ss.m.dom[k]) && ss.m.dom[k] ==> ss.m.vals[k] == old(ss.m.vals[k])
+//@   loop 1: invariant [others] forall k any :: !typeis(k, "string") ==> ss.m.dom[k] == old(ss.m.dom[k])
+
+// ---- purge through the admin API (C18) ----------------------------------------------------
+
+//@ axiom [admin-errors]: cacheKeyIsNil != nil
+//@ func removeCache(c *elton.Context) (err error)
+//@   requires [ctx] c != nil
+//@   requires [registry] dispatchersOK()
+//@   requires [nolocks] nolocks()
+//@   modifies lru.Cache::view, lru.Cache::dom, c.StatusCode, c.BodyBuffer, $hdr, $bytes
+//@   ensures [nokey] queryParam(c, "key") == "" ==> err != nil && (forall l *lru.Cache :: l.view == old(l.view) && l.dom == old(l.dom))
+//@   ensures [ok]    queryParam(c, "key") != "" ==> err == nil
